@@ -5,6 +5,9 @@ INVARIANT Partition
 INVARIANT Blocks
 INVARIANT RoundTrip
 INVARIANT Gate
+INVARIANT Kept
+INVARIANT LazyUnobservable
+INVARIANT Untouched
 VIEW View
 ACTION_CONSTRAINT Emit
 CHECK_DEADLOCK FALSE
@@ -19,3 +22,5 @@ CONSTANTS
   MaxRes = 0
   Access = FALSE
   Fills = {"l0", "all", "mid"}
+  History = FALSE
+  MaxOps = 0
